@@ -143,6 +143,7 @@ class Path:
         p = Path(); p.frames = [f.fork() for f in s.frames]; p.pc = list(s.pc); p.last = s.last; p.nsym = s.nsym
         if hasattr(s, 'tls'): p.tls = dict(s.tls)
         if hasattr(s, 'alloc_cnt'): p.alloc_cnt = dict(s.alloc_cnt)
+        if hasattr(s, 'tls_dtors'): p.tls_dtors = list(s.tls_dtors)
         s.mem, p.mem = s.mem.split(); p.sp = s.sp; p.errno_addr = s.errno_addr
         return p
 
@@ -336,9 +337,32 @@ class Engine:
         p.errno_addr = p.sp; p.sp += 16; p.mem.store(p.errno_addr, 4, 0)
         outs = s.exec_fn(p, s.mod.funcs[fname], [])
         s.stats['paths'] += len(outs)
+        # sequential "thread generations": vf_seq_1, vf_seq_2, ... continue the same execution, each as a new OS thread
+        # (own thread_local storage); the previous generation's thread-exit destructors run in between
+        gen = 1
+        while outs and getattr(s, 'sequential', False) and fname == '@vf_thread_0' and ('@vf_seq_%d' % gen) in s.mod.funcs:
+            m, _ = s.merge(p, outs)
+            s.run_tls_dtors(m)
+            s.tid = 100 + gen
+            outs = s.exec_fn(m, s.mod.funcs['@vf_seq_%d' % gen], [])
+            p = m; gen += 1
         if outs:
             m, _ = s.merge(p, outs)
+            if getattr(s, 'sequential', False): s.run_tls_dtors(m)
             e = s.new_event(m, 'F', None, 0, None, 'end'); e.full = True
+
+    def run_tls_dtors(s, p):
+        mine = [d for d in getattr(p, 'tls_dtors', ()) if d[0] == s.tid]
+        p.tls_dtors = [d for d in getattr(p, 'tls_dtors', ()) if d[0] != s.tid]
+        for (_, fnp, obj) in reversed(mine):
+            fn = s.addr2f.get(fnp) if is_c(fnp) else None
+            if fn is None: raise Unsupported('thread-exit destructor is not a known function')
+            outs = s.exec_fn(p, fn, [obj])
+            if not outs: p.pc.append(z3.BoolVal(False)); return
+            m, rv = s.merge(p, outs)
+            p.pc = m.pc; p.mem = m.mem; p.sp = m.sp; p.last = m.last; p.errno_addr = m.errno_addr; p.nsym = m.nsym
+            if hasattr(m, 'tls_dtors'): p.tls_dtors = m.tls_dtors
+        s.__dict__.setdefault('tls_map', {}).pop(s.tid, None)
 
     def new_event(s, p, kind, addr, size, val, order, text=''):
         e = Ev(); e.id = len(s.events); e.tid = s.tid; e.kind = kind; e.addr = addr; e.size = size; e.val = val
@@ -1413,7 +1437,12 @@ class Engine:
             raise Unsupported('symbolic static-init guard (initialise the static in vf_init)')
         if n == '__cxa_guard_release':
             s.shared_store(p, a[0], 1, 1, 'release', ins.text); return 0
-        if n in ('__cxa_thread_atexit', '_ZN7babylon15SanitizerHelper6poisonEPKvm'): return 0
+        if n == '_ZN7babylon15SanitizerHelper6poisonEPKvm': return 0
+        if n == '__cxa_thread_atexit':
+            # thread-exit destructor of a thread_local object: remembered per (harness) thread, run by vf_thread_exit / at
+            # the end of the thread body
+            lst = list(getattr(p, 'tls_dtors', ())); lst.append((s.tid, a[0], a[1])); p.tls_dtors = lst
+            return 0
         if n == '__errno_location':
             if p.errno_addr is None:
                 p.sp = (p.sp + 15) // 16 * 16; p.errno_addr = p.sp; p.sp += 16; p.mem.store(p.errno_addr, 4, 0)
